@@ -7,6 +7,12 @@ vs. the literal models Shangrla.Vote.* and Shangrla.Assorter.* executed by the L
 
 A case is one of
   {"op": "contest", "scf", "contest", "candidates", "winners", "n_winners", "share", "cvrs"}
+      optionally with "rounds": [{"cvrs": state, "order": [...], "ops": [...]}, ...] and "order": an operation sequence
+      on ONE set of assertions and ONE list object: the list starts as rounds[0]["cvrs"]; in every round everything is
+      evaluated (the six mean/sum/margin calls in the given order), then the round's ops amend ballots inside the
+      same list object keeping its length ({"kind": "update", "i", "votes"} = CVR.update_votes on element i,
+      {"kind": "replace", "i", "card"} = element i replaced by a new CVR); "cvrs" is the list after the last round,
+      on which everything is evaluated once more and compared with the (stateless) model; the oracle checks every round.
   {"op": "irv",     "contest", "candidates", "assertions", "cvrs"}
   {"op": "margin",  "scf", "winner", "loser", "candidates", "share", "cards", "tally"}
 A cvr is {"id": str, "votes": [[contest, [[candidate, value], ...]], ...]}: dicts are written as lists of pairs so
@@ -20,11 +26,15 @@ from ..core import fr, num_close, err_kind
 
 NAME = "assorter"
 RULE = ("random plurality (k winners), approval and super-majority contests with 2-6 candidates and 0-40 cards built "
-        "with Contest.from_dict_of_dicts / Assertion.make_all_assertions / CVR.from_dict; marks encoded at random as "
+        "with Contest.from_dict_of_dicts / Assertion.make_all_assertions (or, 3 in 10, the direct constructor call "
+        "without share_to_win) / CVR.from_dict; marks encoded at random as "
         "True, 1, 5, 'marked', '0', -1 (truthy) or 0, '', False, absent (falsy); blank cards, cards lacking the contest, "
         "overvotes, marks for names outside the candidate list; ties / exact-threshold profiles forced with probability "
         "1/4; IRV assorters from make_assertions_from_json on ranked cards; direct find_margin_from_tally calls incl. "
-        "the NotImplementedError / ZeroDivisionError branches; corpus = exhaustive single-card tables over all mark "
+        "the NotImplementedError / ZeroDivisionError branches; operation sequences on one set of assertions and one "
+        "list object (evaluate all means/sums/margins in a random order, amend 1..all ballots in place with "
+        "CVR.update_votes or by replacing elements, keeping the length, evaluate again; 1-3 rounds, votes moved "
+        "towards the losers, the winners or at random) with every round checked by the oracle; corpus = exhaustive single-card tables over all mark "
         "patterns (8 encodings per candidate) of 2, 3 and 4 candidates.  non-trivial = at least one assertion and at "
         "least two cards of which one carries a truthy mark; distinct = distinct canonical input")
 EXHAUSTIVE = {"quick": False, "thorough": False}
@@ -57,6 +67,41 @@ def table(cands, encodings=ENCODINGS):
         out.append(card(i, "T", [[c, v] for c, v in zip(cands, pat) if v is not None]))
     out.append(card(len(out), "T", None))
     return out
+
+
+FIELDS = ("mean_style", "mean_nostyle", "sum_style", "sum_nostyle", "margin_style", "margin_nostyle")
+
+
+def upd_votes(votes, upd):
+    """what CVR.update_votes(upd) leaves in a card's votes, on the pair-list representation: a contest the card has is
+    dict.update-d (existing key keeps its position, new key is appended), a contest it lacks is added at the end"""
+    votes = [[k, [list(p) for p in m]] for k, m in votes]
+    for k, m in upd:
+        for e in votes:
+            if e[0] == k:
+                for cand, v in m:
+                    for p in e[1]:
+                        if p[0] == cand:
+                            p[1] = v
+                            break
+                    else:
+                        e[1].append([cand, v])
+                break
+        else:
+            votes.append([k, [list(p) for p in m]])
+    return votes
+
+
+def apply_ops(state, ops):
+    """the list of cards after the amendments `ops` (the generator's own bookkeeping; `impl` reports what the real
+    objects hold and `compare` checks the two agree)"""
+    new = [{"id": c["id"], "votes": [[k, [list(p) for p in m]] for k, m in c["votes"]]} for c in state]
+    for o in ops:
+        if o["kind"] == "update":
+            new[o["i"]] = {"id": new[o["i"]]["id"], "votes": upd_votes(new[o["i"]]["votes"], o["votes"])}
+        else:
+            new[o["i"]] = {"id": o["card"]["id"], "votes": [[k, [list(p) for p in m]] for k, m in o["card"]["votes"]]}
+    return new
 
 
 F19_WITNESS = {"op": "contest", "scf": PLUR, "contest": "AvB", "candidates": ["a", "b", "c"], "winners": ["a"],
@@ -97,6 +142,15 @@ def corpus():
                 "n_winners": 1, "share": 0.5, "cvrs": []})
     out.append({"op": "contest", "scf": PLUR, "contest": "P", "candidates": ["a", "b"], "winners": ["a"],
                 "n_winners": 1, "share": 0.5, "cvrs": [card(1, "P", None), card(2, "P", None)]})
+    # an operation sequence: evaluate, amend ballots inside the same list (same length), evaluate again
+    st0 = [card(0, "P", [["a", True]]), card(1, "P", [["a", 1]]), card(2, "P", [["b", True]]), card(3, "P", [])]
+    ops = [{"kind": "update", "i": 0, "votes": [["P", [["a", False], ["b", True]]]]},
+           {"kind": "replace", "i": 3, "card": card(3, "P", [["b", "marked"]])}]
+    st1 = apply_ops(st0, ops)
+    for order in (list(FIELDS), list(reversed(FIELDS))):
+        out.append({"op": "contest", "scf": PLUR, "contest": "P", "candidates": ["a", "b"], "winners": ["a"],
+                    "n_winners": 1, "share": 0.5, "cvrs": st1, "order": order,
+                    "rounds": [{"cvrs": st0, "order": order, "ops": ops}]})
     # exhaustive single-card tables
     for nc in (2, 3, 4):
         cands = ["a", "b", "c", "d"][:nc]
@@ -249,8 +303,61 @@ def gen_contest(rng, tier):
                 rng.shuffle(cvrs)
     for i, c in enumerate(cvrs):
         c["id"] = str(i)
-    return {"op": "contest", "scf": scf, "contest": contest, "candidates": cands, "winners": winners,
-            "n_winners": n_winners, "share": share, "cvrs": cvrs}
+    out = {"op": "contest", "scf": scf, "contest": contest, "candidates": cands, "winners": winners,
+           "n_winners": n_winners, "share": share, "cvrs": cvrs}
+    if scf != APPR and rng.chance(0.3):
+        out["direct"] = True        # make_plurality_assertions / make_supermajority_assertion called directly
+    return out
+
+
+def gen_sequence(rng, tier):
+    """an operation sequence on one list object: rounds of (evaluate everything, amend ballots in place)"""
+    for _ in range(20):
+        base = gen_contest(rng, tier)
+        if len(base["cvrs"]) >= 2:
+            break
+    else:
+        return base
+    contest, cands, winners = base["contest"], base["candidates"], base["winners"]
+    losers = [c for c in cands if c not in winners] or list(cands)
+    wins = [w for w in winners if w in cands] or list(cands)
+    state = base["cvrs"]
+    n = len(state)
+    rounds = []
+    for _ in range(rng.choice([1, 1, 2, 2, 3])):
+        direction = rng.choice(["lose", "lose", "win", "random"])
+        k = min(n, max(1, rng.choice([1, 2, 3, n // 2, n // 2, n, n])))
+        ops = []
+        cur = state
+        for idx in sorted(rng.sample(range(n), k)):
+            if direction == "random":
+                chosen = set(rng.sample(cands, rng.choice([0, 1, 1, 1, 2]) if len(cands) > 1 else 1))
+            else:
+                chosen = {rng.choice(losers if direction == "lose" else wins)}
+            if rng.chance(0.7):
+                d = _dict_of(cur[idx], contest)
+                if d is None:
+                    m = make_marks(rng, cands, chosen)          # update_votes adds the contest to the card
+                else:
+                    m = [[c, enc(rng, False)] for c, v in d.items() if bool(v) and c not in chosen]
+                    m += [[c, enc(rng, True)] for c in chosen]
+                    rng.shuffle(m)
+                upd = [[contest, m]]
+                if rng.chance(0.15):
+                    upd.insert(rng.randint(0, 1), ["other", [["x", enc(rng, rng.chance(0.5))]]])
+                o = {"kind": "update", "i": idx, "votes": upd}
+            else:
+                marks = None if rng.chance(0.1) else make_marks(rng, cands, chosen)
+                o = {"kind": "replace", "i": idx, "card": card(cur[idx]["id"], contest, marks)}
+            ops.append(o)
+            cur = apply_ops(cur, [o])
+        order = list(FIELDS)
+        rng.shuffle(order)
+        rounds.append({"cvrs": state, "order": order, "ops": ops})
+        state = cur
+    order = list(FIELDS)
+    rng.shuffle(order)
+    return {**base, "cvrs": state, "order": order, "rounds": rounds}
 
 
 def gen_irv(rng, tier):
@@ -314,8 +421,10 @@ def gen_margin(rng, tier):
 def gen(rng, n, tier):
     for i in range(n):
         u = rng.random()
-        if u < 0.8:
+        if u < 0.64:
             yield gen_contest(rng, tier)
+        elif u < 0.8:
+            yield gen_sequence(rng, tier)
         elif u < 0.93:
             yield gen_irv(rng, tier)
         else:
@@ -377,31 +486,27 @@ def _try(f):
         return {"st": "err", "err": err_kind(e)}
 
 
-def impl_contest(case):
-    from shangrla.core.Audit import Contest, Assertion
-    cid = case["contest"]
-    cvrs = _cvrs(case)
-    cons = Contest.from_dict_of_dicts({cid: _contest_dict(case, len(cvrs))})
-    con = cons[cid]
-    if case["scf"] == APPR:
-        # make_all_assertions has no APPROVAL branch; approval contests use the plurality assertions
-        con.assertions = Assertion.make_plurality_assertions(
-            contest=con, winner=con.winner, loser=list(set(con.candidates) - set(con.winner)))
-    else:
-        Assertion.make_all_assertions(cons)
+def _field(a, f, cvrs):
+    from shangrla.core.Audit import Assertion
+    style = f.endswith("_style")
+    if f.startswith("mean"):
+        return _num(a.assorter.mean(cvrs, use_style=style))
+    if f.startswith("sum"):
+        return _num(a.assorter.sum(cvrs, use_style=style))
+    # the method Assertion.margin is shadowed by the instance attribute `margin`; call it through the class
+    return _num(Assertion.margin(a, cvrs, use_style=style))
+
+
+def _evaluate(cons, con, cid, cvrs, order):
+    """everything the group observes, of the assertions `con.assertions`, on the list `cvrs` as it is now"""
+    from shangrla.core.Audit import Contest
     out = {}
     for key, a in con.assertions.items():
-        out[key] = {
-            "winner": a.winner, "loser": a.loser, "upper": _num(a.assorter.upper_bound),
-            "vals": [_num(a.assorter.assort(c)) for c in cvrs],
-            "mean_style": _num(a.assorter.mean(cvrs, use_style=True)),
-            "mean_nostyle": _num(a.assorter.mean(cvrs, use_style=False)),
-            "sum_style": _num(a.assorter.sum(cvrs, use_style=True)),
-            "sum_nostyle": _num(a.assorter.sum(cvrs, use_style=False)),
-            # the method Assertion.margin is shadowed by the instance attribute `margin`; call it through the class
-            "margin_style": _num(Assertion.margin(a, cvrs, use_style=True)),
-            "margin_nostyle": _num(Assertion.margin(a, cvrs, use_style=False)),
-        }
+        o = {"winner": a.winner, "loser": a.loser, "upper": _num(a.assorter.upper_bound),
+             "vals": [_num(a.assorter.assort(c)) for c in cvrs]}
+        for f in order:
+            o[f] = _field(a, f, cvrs)
+        out[key] = o
     tallies = {}
     for enforce, tag in ((True, "enforce"), (False, "noenforce")):
         Contest.tally(cons, cvrs, enforce_rules=enforce)
@@ -414,6 +519,50 @@ def impl_contest(case):
     return {"st": "ok", "assertions": out, "tally_enforce": tallies["enforce"], "tally_noenforce": tallies["noenforce"],
             "has_contest": [bool(c.has_contest(cid)) for c in cvrs],
             "has_one_vote": [bool(c.has_one_vote(cid, con.candidates)) for c in cvrs]}
+
+
+def _readback(cvrs):
+    """what the CVR objects in the list hold now, in the representation of a case"""
+    return [{"id": c.id, "votes": [[k, [[cand, v] for cand, v in m.items()]] for k, m in c.votes.items()]} for c in cvrs]
+
+
+def _amend(cvrs, ops):
+    """amend ballots inside the list object `cvrs` (its identity and length are kept)"""
+    for o in ops:
+        if o["kind"] == "update":
+            cvrs[o["i"]].update_votes({k: {cand: v for cand, v in m} for k, m in o["votes"]})
+        else:
+            cvrs[o["i"]] = _cvrs({"cvrs": [o["card"]]})[0]
+
+
+def impl_contest(case):
+    from shangrla.core.Audit import Contest, Assertion
+    cid = case["contest"]
+    rounds = case.get("rounds") or []
+    cvrs = _cvrs({"cvrs": rounds[0]["cvrs"]} if rounds else case)      # the one list object of the whole case
+    cons = Contest.from_dict_of_dicts({cid: _contest_dict(case, len(cvrs))})
+    con = cons[cid]
+    if case["scf"] == APPR or (case.get("direct") and case["scf"] == PLUR):
+        # make_all_assertions has no APPROVAL branch; approval contests use the plurality assertions
+        con.assertions = Assertion.make_plurality_assertions(
+            contest=con, winner=con.winner, loser=list(set(con.candidates) - set(con.winner)))
+    elif case.get("direct") and case["scf"] == SUPER:
+        # the direct call of tests/core/test_Assertion.py: contest, winner, loser -- share_to_win is the contest's
+        con.assertions = Assertion.make_supermajority_assertion(
+            contest=con, winner=con.winner[0], loser=list(set(con.candidates) - set(con.winner)))
+    else:
+        Assertion.make_all_assertions(cons)
+    hist = []
+    for r in rounds:
+        res = _evaluate(cons, con, cid, cvrs, r.get("order") or FIELDS)
+        res["state"] = _readback(cvrs)
+        hist.append(res)
+        _amend(cvrs, r["ops"])
+    res = _evaluate(cons, con, cid, cvrs, case.get("order") or FIELDS)
+    if rounds:
+        res["rounds"] = hist
+        res["state"] = _readback(cvrs)
+    return res
 
 
 def impl_irv(case):
@@ -495,6 +644,13 @@ def compare(case, ir, mr):
     op = case["op"]
     if op == "margin":
         return _cmp_exc("margin", ir["margin"], mr["margin"])
+    if case.get("rounds"):
+        # the list the real objects hold after each round is the list the case says (CVR.update_votes / replacement)
+        for k, (r, h) in enumerate(zip(case["rounds"], ir["rounds"])):
+            if h["state"] != r["cvrs"]:
+                return f"round {k}: the list holds {h['state']} but the case says {r['cvrs']}"
+        if ir["state"] != case["cvrs"]:
+            return f"after the last round the list holds {ir['state']} but the case says {case['cvrs']}"
     ma = {}
     for a in mr["assertions"]:
         ma[a["key"]] = a
@@ -587,6 +743,9 @@ def signature(case, ir):
         flags.append("overvote")
     if not all(ir["has_contest"]):
         flags.append("nocontest")
+    if case.get("rounds"):
+        m0 = [a["mean_nostyle"] for a in ir["rounds"][0]["assertions"].values()]
+        flags.append("seq-flip" if all(x > 0.5 + TOL for x in m0) != (out == "allwin") else "seq")
     return f"{case['scf']};{out};" + ",".join(flags)
 
 
@@ -611,6 +770,25 @@ def _sign_check(what, mean, gap, scale):
 
 
 def oracle_c02(case, ir):
+    """an operation sequence: the property holds of the ballots the list holds at every evaluation"""
+    tagged = None
+    if case.get("rounds") and ir.get("st") == "ok":
+        plain = {k: v for k, v in case.items() if k not in ("rounds", "order")}
+        for k, (r, h) in enumerate(zip(case["rounds"], ir["rounds"])):
+            v = _oracle_state({**plain, "cvrs": r["cvrs"]}, h)
+            if v and not v.get("finding"):
+                return {"what": f"evaluation {k} of {len(case['rounds']) + 1} on one list object, after the amendments "
+                                f"{[o for q in case['rounds'][:k] for o in q['ops']]}: " + v["what"]}
+            tagged = tagged or v
+        v = _oracle_state({**plain, "cvrs": case["cvrs"]}, ir)
+        if v and not v.get("finding"):
+            return {"what": f"last evaluation on one list object, after the amendments "
+                            f"{[o for q in case['rounds'] for o in q['ops']]}: " + v["what"]}
+        return tagged or v
+    return _oracle_state(case, ir)
+
+
+def _oracle_state(case, ir):
     op = case["op"]
     if ir.get("st") != "ok":
         return {"what": f"{op}: the implementation raised {ir.get('err')}: {ir.get('msg', '')}"}
